@@ -4,6 +4,12 @@ import json
 import sys
 
 LEVEL_TEXT = {
+    'C14': ("Machine-checked over tables REGENERATED from the current headers on every run (clang JSON AST): each of the 152 operator overloads applies, inside "
+            "its lambda, the operator it is declared for to its operands in source order, hands them to makeNode in source order, and declares as result type "
+            "decltype of that same expression with the right accessors - for every interpretation of the C++ operators and all operand values; the table is "
+            "complete (4 unary x 2, 18 binary x 8 operand-kind combinations, nothing else); the 9 predeclared functions forward all arguments to std::NAME with a "
+            "deduced result type. What the compiler makes of it (promotions, result types, values) is validated exhaustively on a stated finite grid: "
+            "static_assert on the result type and value comparison initially and after every input change, plus nested expressions under deferred evaluation.", '6/C14'),
     'C02': ("PARTIAL. Machine-checked on the abstract propagation model (coq/PropAbs.v: markDirty with early return, cached re-evaluation, setHelper with "
             "equality suppression, nested notification): for every network of unary/binary operator trees, every interpretation of the user functions and "
             "every delivery order, after every sequence of input assignments that returns, all nodes are clean, all caches equal their denotation and every "
@@ -97,6 +103,7 @@ def main():
     }
     for p in claimed:
         text, ref = LEVEL_TEXT[p]
+        tech = TECH if p not in ('C14', 'C17', 'C18', 'C20') else 'Coq proof over tables regenerated from the source by a clang-AST translator + compile/run grid'
         m['checks'].append({
             'property_id': p,
             'quick_cmd': f'bin/verif check {p} --tier quick',
@@ -106,7 +113,7 @@ def main():
             'engine': 'coq-model',
             'level_claimed': {'category': 'proof', 'text': text, 'design_ref': ref},
             'level_note': NOTE,
-            'technique': TECH,
+            'technique': tech,
         })
     json.dump(m, open('/verif/MANIFEST.json', 'w'), indent=1)
     print('claimed:', claimed)
